@@ -1157,15 +1157,41 @@ class ProbabilisticTensorDictSequential(TensorDictSequential):
         if not self.return_composite:
             tensordict_out = self.get_dist_params(tensordict, tensordict_out, **kwargs)
             return self.build_dist_from_params(tensordict_out)
+        return self._get_dist_composite(tensordict, condition_on_samples=False)
 
+    def _get_dist_composite(
+        self, tensordict: TensorDictBase, *, condition_on_samples: bool
+    ) -> D.Distribution:
+        # condition_on_samples=True (log_prob): the distribution of a module that reads the sample of
+        # an earlier probabilistic module is conditioned on the sample found in the tensordict -- the
+        # one whose log-probability is asked for -- and not on a fresh draw.
         td_copy = tensordict.copy()
         dists = {}
         for i, tdm in enumerate(self._module_iter()):
             if isinstance(
                 tdm, (ProbabilisticTensorDictModule, ProbabilisticTensorDictSequential)
             ):
-                dist = tdm.get_dist(td_copy)
-                if i < len(self.module) - 1:
+                if (
+                    condition_on_samples
+                    and isinstance(tdm, ProbabilisticTensorDictSequential)
+                    and tdm.return_composite
+                ):
+                    dist = tdm._get_dist_composite(
+                        td_copy, condition_on_samples=condition_on_samples
+                    )
+                else:
+                    dist = tdm.get_dist(td_copy)
+                if (
+                    condition_on_samples
+                    and i < len(self.module) - 1
+                    and all(
+                        td_copy.get(key, None) is not None
+                        for key in tdm.dist_sample_keys
+                    )
+                ):
+                    # keep the samples that are there
+                    pass
+                elif i < len(self.module) - 1:
                     sample = tdm._dist_sample(dist, interaction_type=interaction_type())
                     if tdm.num_samples not in ((), None):
                         td_copy = td_copy.expand(tdm.num_samples + td_copy.shape)
@@ -1248,7 +1274,12 @@ class ProbabilisticTensorDictSequential(TensorDictSequential):
         else:
             tensordict_inp = tensordict
         if dist is None:
-            dist = self.get_dist(tensordict_inp)
+            if self.return_composite:
+                dist = self._get_dist_composite(
+                    tensordict_inp, condition_on_samples=True
+                )
+            else:
+                dist = self.get_dist(tensordict_inp)
         return_composite = self.return_composite
         if return_composite and isinstance(dist, CompositeDistribution):
             # Check the values within the dist - if not set, choose defaults
